@@ -116,6 +116,9 @@ def parse_spec(path):
             elif key == '@alias':
                 a, _, b = rest.partition(' = ')
                 cfg.setdefault('aliases', {})[a.strip()] = b.strip()
+            elif key == '@field_map':
+                a, _, b = rest.partition(' = ')
+                cfg.setdefault('field_map', {})[a.strip()] = b.strip()
             elif key == '@global':
                 a, _, b = rest.partition(' = ')
                 cfg.setdefault('global_values', {})[a.strip()] = b.strip()
